@@ -393,8 +393,8 @@ def consumeStream (t : Nat) (b : List Nat) : Option (Frame × List Nat) :=
         if off + data.length ≥ 4611686018427387904 then none
         else some (Frame.stream id off (t % 2 = 1) data, b3)
 
-/-- `consumeNewConnectionIDFrame` (after the type byte). The connection ID is read with
-`ConsumeVarintBytes` although the writer (and RFC 9000 §19.15) use an 8-bit length. -/
+/-- `consumeNewConnectionIDFrame` (after the type byte). The connection ID has an 8-bit length
+(`ConsumeUint8Bytes`), as in the writer and RFC 9000 §19.15. -/
 def consumeNewConnectionID (b : List Nat) : Option (Frame × List Nat) :=
   match takeVarint b with
   | none => none
@@ -404,7 +404,7 @@ def consumeNewConnectionID (b : List Nat) : Option (Frame × List Nat) :=
     | some (retire, b2) =>
       if seq < retire then none
       else
-        match takeVarintBytes b2 with
+        match takeUint8Bytes b2 with
         | none => none
         | some (cid, b3) =>
           if cid.length < 1 ∨ cid.length > 20 then none
@@ -481,7 +481,7 @@ def parseFrame (b : List Nat) : Option (Frame × Nat) :=
     | some (f, r) => some (f, b.length - r.length)
     | none => none
 
-/-! ### `parseDebugFrameAck`'s range reversal, as written -/
+/-! ### `parseDebugFrameAck`'s range reversal (in-place swap loop) -/
 
 /-- swap elements `i` and `j` of a list (no-op when out of range). -/
 def swapAt {α : Type} (l : List α) (i j : Nat) : List α :=
@@ -489,9 +489,8 @@ def swapAt {α : Type} (l : List α) (i j : Nat) : List α :=
   | some a, some b => (l.set i b).set j a
   | _, _ => l
 
-/-- The loop `for i := 0; i < len/2; i++ { j := len-1; swap(i, j) }` (sic: `j` does not
-depend on `i`). -/
+/-- The loop `for i := 0; i < len/2; i++ { j := len-1-i; swap(i, j) }`. -/
 def debugReverse {α : Type} (l : List α) : List α :=
-  (List.range (l.length / 2)).foldl (fun acc i => swapAt acc i (l.length - 1)) l
+  (List.range (l.length / 2)).foldl (fun acc i => swapAt acc i (l.length - 1 - i)) l
 
 end NetVerif.Model.QuicFrames
